@@ -34,7 +34,7 @@ func (c08) Meta() fw.Meta {
 			"CLI commands read the wall clock; the oracle uses the now: value the command printed (per file), so the comparison is exact at that instant",
 			"value equality is numeric (+0 == -0), as the command's own difference test; NaN equals NaN",
 		},
-		Obligations: []string{"copies_ok", "slots_compared", "slots_copied", "coarser_matched_finer_differed", "dest_absent_created", "dest_absent_nothing_to_copy", "narrow_window", "window_beyond_finest_retention", "single_archive_selection", "glob_mode_3plus_files", "copy_nan_mode", "layout_mismatch_rejected", "repeat_idempotent", "diff_after_copy_clean", "source_unchanged_checks", "symlinked_source_in_glob", "unclean_base_spelling"},
+		Obligations: []string{"copies_ok", "slots_compared", "slots_copied", "coarser_matched_finer_differed", "dest_absent_created", "dest_absent_nothing_to_copy", "narrow_window", "window_beyond_finest_retention", "single_archive_selection", "glob_mode_3plus_files", "copy_nan_mode", "layout_mismatch_rejected", "repeat_idempotent", "diff_after_copy_clean", "source_unchanged_checks", "symlinked_source_in_glob", "unclean_base_spelling", "glob_failing_file_reported"},
 		Workers:     12,
 	}
 }
@@ -266,6 +266,42 @@ func (c08) Run(c *fw.Ctx) {
 		}
 	}
 
+	// glob mode: a file whose existing destination has another layout, followed (in glob order) by good files:
+	// the failure must be reported and that destination left untouched
+	if sc.Glob && c.Index%3 == 0 && nfiles >= 3 {
+		var top []string
+		for _, rel := range sc.Files {
+			if filepath.Dir(rel) == "." {
+				top = append(top, rel)
+			}
+		}
+		if len(top) >= 2 {
+			victim := top[0]
+			other := model.Layout{Archs: append([]model.Arch(nil), l.Archs...), Method: l.Method, Xff: l.Xff}
+			other.Archs[0].Points += 2 + uint32(r.Intn(4))
+			if v, _ := model.ValidLayout(other.Archs); v == model.Valid {
+				dp := filepath.Join(destBase, victim)
+				writeFixture(dp, other, genContent(r, other, now, 0.5), now)
+				before := readFileOrNil(dp)
+				res := runCLI(c, buildArgs("*.wsp")...)
+				if cliPanicked(res) {
+					c.Violationf("panic", res.brief(), "copy panicked")
+					return
+				}
+				if res.Exit == 0 {
+					c.Violationf("glob-copy-hides-failed-file", fw.J{"scenario": sc, "run": res.brief(), "mismatching_file": victim}, "glob copy exited 0 although %s has a layout mismatch (it is followed by files that copy fine)", victim)
+					return
+				}
+				if !bytes.Equal(before, readFileOrNil(dp)) {
+					c.Violationf("layout-mismatch-wrote", fw.J{"scenario": sc, "run": res.brief()}, "glob copy modified the mismatching destination %s", victim)
+					return
+				}
+				c.Count("glob_failing_file_reported", 1)
+				c.Nontrivial("glob-mismatch", fw.JSON(sc))
+				return
+			}
+		}
+	}
 	copied, survived := int64(0), int64(0)
 	for _, pat := range patterns {
 		res := runCLI(c, buildArgs(pat)...)
